@@ -158,3 +158,23 @@ Definition jwk_deser_pinned := jwk_deser_with false.   (* finding F16 *)
 
 (* VerificationMethod::from_builder's guard on PublicKeyJwk data *)
 Definition method_from_jwk (k : jwk) : option jwk := if jwk_is_public k then Some k else None.
+
+(* jwk_ext.rs: `TryFrom<jsonprooftoken::jwk::key::Jwk> for Jwk`.  The foreign key declares a key type of its own (any of the four,
+   never compared with its parameters by that crate) next to a parameter variant: elliptic curve (crv x y d?) or octet key pair
+   (crv x d?).  Only elliptic-curve keys convert, and the result is declared EC whatever the foreign key said; an x5u that is
+   not a URL is an error.  `pinned = true` is the tree before fix: the octet-key-pair arm was `unreachable!()`. *)
+Inductive fparams := FEc (crv x y : Z) (d : option Z) | FOkp (crv x : Z) (d : option Z).
+Record fjwk := { f_declared : jkty; f_params : fparams; f_kid : option Z; f_x5u : option (bool * Z); f_x5c : option Z; f_x5t : option Z }.
+Inductive conv := CvOk (k : jwk) | CvErr | CvPanic.
+Definition jwk_from_foreign (pinned : bool) (f : fjwk) : conv :=
+  match f_x5u f with
+  | Some (false, _) => CvErr
+  | x5u =>
+      match f_params f with
+      | FEc c x y d =>
+          CvOk {| j_kty := KEc; j_use := None; j_ops := None; j_alg := None; j_kid := f_kid f;
+                  j_x5u := match x5u with Some (_, v) => Some v | None => None end;
+                  j_x5c := f_x5c f; j_x5t := f_x5t f; j_x5ts := None; j_params := PEc c x y d |}
+      | FOkp _ _ _ => if pinned then CvPanic else CvErr
+      end
+  end.
